@@ -253,6 +253,22 @@ int ops_trav(int n, char **a) {
         free(out); free(cells);
         return 1;
     }
+    if (isop(op, "compactS")) {
+        /* compactCells as a set: sorted non-zero outputs (compared with the set-level specification) */
+        H3Index *cells; int64_t cnt;
+        if (parseHList(n, a, 1, &cells, &cnt) < 0) return 0;
+        H3Index *out = xbuf((size_t)cnt, sizeof(H3Index));
+        H3Error e = H3_EXPORT(compactCells)(cells, out, cnt);
+        if (e) outErr(e);
+        else {
+            int64_t w = 0;
+            for (int64_t i = 0; i < cnt; i++) if (out[i]) out[w++] = out[i];
+            for (int64_t i = 1; i < w; i++) { H3Index x = out[i]; int64_t j = i; while (j > 0 && out[j - 1] > x) { out[j] = out[j - 1]; j--; } out[j] = x; }
+            printf("ok "); outHs(out, w); printf("\n");
+        }
+        free(out); free(cells);
+        return 1;
+    }
     if (isop(op, "uncompact")) {
         H3Index *cells; int64_t cnt;
         int at = parseHList(n, a, 1, &cells, &cnt);
